@@ -511,3 +511,55 @@ def check_problem_description_names_step(chk, ix):
             chk.fail(Finding("J3", f.fullname, "step %s: entry text %r" % (kind, texts[:1]),
                              "the failure/error entry for a culprit step %s has the text %r: it does not name the step (its description and "
                              "location), so the report does not say which step is responsible" % (kind, texts[:1]), file=f.file, line=f.lineno))
+
+
+WHAT["J8"] = ("every feature file of a run gets its own report name: the name keeps the directory part (below the path given on the command "
+              "line, or below the base directory when the file itself was given), so that two files with the same base name do not overwrite "
+              "each other's TESTS-*.xml")
+
+
+def check_feature_filenames(chk, ix):
+    """J8: JUnitReporter.make_feature_filename evaluated for directory arguments and for explicit file arguments."""
+    import posixpath
+    chk.rule("J8", WHAT["J8"])
+    rc = ix.cls("behave.reporter.junit:JUnitReporter")
+    f = rc.lookup("make_feature_filename")
+    if f is None:
+        raise AnalysisError("anchor missing: JUnitReporter.make_feature_filename")
+    runs = [
+        (["features"], "features", ["features/a.feature", "features/sub/a.feature", "features/sub/deep/b.feature"], ["a", "sub.a", "sub.deep.b"]),
+        (["features/x/a.feature", "features/y/a.feature"], "features", ["features/x/a.feature", "features/y/a.feature"], ["x.a", "y.a"]),
+        (["features/x", "features/y"], "features", ["features/x/a.feature", "features/y/b.feature"], ["a", "b"]),
+    ]
+    for paths, base_dir, files, want in runs:
+        got = []
+        for fn in files:
+            def relpath(it_, st_, a, k, n, _fn=fn):
+                return [(st_, "val", posixpath.relpath(_fn, a[1] if len(a) > 1 and isinstance(a[1], str) else "."))]
+            ident = lambda it_, st_, a, k, n: [(st_, "val", a[0] if a else None)]      # noqa: E731
+            it = Interp(ix, stubs={"LocationTok.relpath": relpath, "text": ident, "_text": ident, "behave.textutil.text": ident,
+                                   "os.path.basename": lambda it_, st_, a, k, n: [(st_, "val", posixpath.basename(a[0]))],
+                                   "os.path.relpath": lambda it_, st_, a, k, n: [(st_, "val", posixpath.relpath(*a))]}, name="make_feature_filename")
+            it.int_sat = 1000
+            it.list_cap = 100
+            st = State()
+            st.frames = []
+            cfg = st.alloc(HObj("ConfigTok", {"paths": st.alloc(HObj("list", kind="list", items=list(paths))), "base_dir": base_dir}, label="config"))
+            loc = st.alloc(HObj("LocationTok", {"filename": fn}, label="location"))
+            feat = st.alloc(HObj("FeatureTok", {"filename": fn, "location": loc, "name": "F"}, label="feature"))
+            me = st.alloc(HObj(rc, {"config": cfg}, label="reporter"))
+            outs = it.call_function(st, f, [feat], {}, None, self_val=me)
+            chk.absorb(it)
+            if len(outs) != 1 or outs[0][1] != "val" or not isinstance(outs[0][2], str):
+                raise AnalysisError("make_feature_filename(%r) with paths %r does not fold to a string: %r" % (fn, paths, [(k, v) for _, k, v in outs][:2]))
+            got.append(outs[0][2])
+        chk.instance("J8")
+        if got == want:
+            chk.ok("J8", {"paths": paths, "files": files, "report names": got}, nontrivial_key=repr(paths))
+        else:
+            _fail = Finding("J8", f.fullname, "paths %r: %r -> %r" % (paths, files, got),
+                            "with the command-line paths %r the feature files %r get the report names %r, expected %r%s" % (
+                                paths, files, got, want, " (two features share one TESTS-*.xml: the second overwrites the first)" if len(set(got)) < len(got) else ""),
+                            file=f.file, line=f.lineno, stmt="def make_feature_filename")
+            chk.fail(_fail)
+    chk.require_instances("J8", 3)
